@@ -181,3 +181,47 @@ func Tail(s string, n int) string {
 	}
 	return strings.Join(lines, "\n")
 }
+
+var reProved = regexp.MustCompile(`All (\d+) obligations? proved`)
+
+// RunTLAPS re-checks a proof module with the TLA+ proof system in a private scratch directory.
+// spec/tlaps/ holds stand-ins for modules the proof system cannot load (the CommunityModules' Json).
+// Returns the number of proved obligations; a non-nil error means the proof was not re-checked
+// (tool missing, prover timeout, ...), which says nothing about the code.
+func RunTLAPS(module string, timeout time.Duration) (int, string, error) {
+	dir, err := os.MkdirTemp("", "verif-tlaps-")
+	if err != nil {
+		return 0, "", err
+	}
+	defer os.RemoveAll(dir)
+	specs, _ := filepath.Glob(filepath.Join(SpecDir, "*.tla"))
+	stubs, _ := filepath.Glob(filepath.Join(SpecDir, "tlaps", "*.tla"))
+	for _, f := range append(specs, stubs...) {
+		if err := copyFile(f, filepath.Join(dir, filepath.Base(f))); err != nil {
+			return 0, "", err
+		}
+	}
+	ctx, cancel := context.WithTimeout(context.Background(), timeout)
+	defer cancel()
+	cmd := exec.CommandContext(ctx, "tlapm", "--threads", "8", "--stretch", "4", "-I", dir, module+".tla")
+	cmd.Dir = dir
+	var buf bytes.Buffer
+	cmd.Stdout = &buf
+	cmd.Stderr = &buf
+	err = cmd.Run()
+	var keep []string
+	for _, l := range strings.Split(buf.String(), "\n") {
+		if !strings.HasPrefix(l, "WARNING") {
+			keep = append(keep, l)
+		}
+	}
+	out := strings.Join(keep, "\n")
+	if m := reProved.FindStringSubmatch(out); m != nil && err == nil {
+		n, _ := strconv.Atoi(m[1])
+		return n, out, nil
+	}
+	if err == nil {
+		err = fmt.Errorf("no success line")
+	}
+	return 0, out, fmt.Errorf("tlapm: %v: %s", err, Tail(out, 6))
+}
